@@ -162,6 +162,25 @@ def c15(chk, tier):
         chk.model_violation(r, "Flag.tla", {})
     import props
     props.step(chk, tier)
+    # the ordering-dependent part: FlagSB.tla says which outcome the declared SeqCst accesses forbid;
+    # the litmus looks for it on the real actions (x86-64, >= 3 CPUs)
+    r = chk.model_check("FlagSB.tla", dict(OrdFlagStore="SeqCst", OrdCondLoad="SeqCst"),
+                        invariants=["ShutdownSeesArming"], deadlock=False, workers=2,
+                        what="store buffering between the flag action, the conditional shutdown of the same "
+                             "delivery and an arming application thread, orderings as declared in flag.rs")
+    if r.violation:
+        chk.model_violation(r, "FlagSB.tla", {})
+    out = os.path.join(WORK, "probe_C15_flagsb.ndjson")
+    a2 = ["--budget-ms", 20000 if tier == "thorough" else 3000]
+    recs2 = run_probe("flagsb", a2, out, rel=True)
+    for r2 in recs2:
+        chk.evaluations += r2.get("children", 0)
+        chk.traces += r2.get("children", 0)
+        if r2.get("children", 0) == 0:
+            chk.note("store-buffering litmus did not run (needs x86-64 and >= 3 CPUs)")
+        chk.sample(r2)
+    found = validate_records(chk, "TraceFlagSB.tla", out, "V_C15", "flagsb")
+    report(chk, found, "flagsb", a2)
 
 
 def c14(chk, tier):
